@@ -7,7 +7,8 @@ use super::{EvalexprFloat, EvalexprInt, EvalexprNumericTypes};
 /// See [`EvalexprNumericTypes`].
 ///
 /// This empty struct uses [`i64`] as its integer type and [`f64`] as its float type.
-#[derive(Debug, Clone, Copy, Eq, PartialEq, Ord, PartialOrd, Hash)]
+#[derive(Debug, Clone, Copy, Default, Eq, PartialEq, Ord, PartialOrd, Hash)]
+#[cfg_attr(feature = "serde", derive(serde::Serialize, serde::Deserialize))]
 pub struct DefaultNumericTypes;
 
 impl EvalexprNumericTypes for DefaultNumericTypes {
